@@ -3,6 +3,6 @@
 id=$1; pid=$2; tier=${3:-quick}
 cd /verif
 git -C /repo apply /verif/seeded/$id/patch.diff || { echo "cannot apply"; exit 2; }
-trap 'git -C /repo checkout -- .' EXIT
+trap 'git -C /repo checkout -- .; python3 /verif/tools/gen_tables.py >/dev/null; python3 /verif/tools/gen_consts.py >/dev/null' EXIT
 ./check $pid $tier 2>&1 | tail -4
 echo "exit=${PIPESTATUS[0]}"
